@@ -379,9 +379,16 @@ Qed.
 Lemma on_retract_response_FB s w ids s' : on_retract_response s w ids = Ok s' -> FB (AC (core_of s') (fun x => In x ids)) s s'.
 Proof.
   unfold on_retract_response. intros H. destruct (retract_response_states _ w ids []) as [c' groups] eqn:E.
-  rewrite (send_redirected_core _ _ _ H). cbn [core_of st_core with_core s_core fst].
-  eapply FB_trans; [apply (FB_core _ s c')|]. eapply (send_redirected_FB (fun x => In x ids) groups (st_core s c')); [exact H|].
-  intros tg l ir Hin Hir. destruct (rrs_ids _ _ _ _ _ _ E tg l ir Hin Hir) as [X|(l0 & [] & _)]. exact X.
+  apply bind_ok in H. destruct H as (s2 & H & H2).
+  assert (X2 : FB (AC c' (fun x => In x ids)) s s2).
+  { eapply FB_trans; [apply (FB_core _ s c')|]. eapply (send_redirected_FB (fun x => In x ids) groups (st_core s c')); [exact H|].
+    intros tg l ir Hin Hir. destruct (rrs_ids _ _ _ _ _ _ E tg l ir Hin Hir) as [X|(l0 & [] & _)]. exact X. }
+  pose proof (send_redirected_core _ _ _ H) as Ec. cbn [core_of st_core with_core s_core fst] in Ec.
+  destruct (retract_wakes _ _ _ _); inversion H2; subst s'; clear H2.
+  - eapply FB_trans; [|apply FB_ask].
+    replace (AC (core_of (ask_scheduling s2)) (fun x => In x ids)) with (AC c' (fun x => In x ids)); [exact X2|].
+    change (core_of (ask_scheduling s2)) with (with_flag (core_of s2) true). cbn [core_of]. rewrite Ec. reflexivity.
+  - cbn [core_of]. rewrite Ec. exact X2.
 Qed.
 
 Lemma send_mapping_FB m : forall s s', send_mapping s m = Ok s' -> FB (AC (core_of s) (fun _ => True)) s s'.
